@@ -254,11 +254,14 @@ pub struct Env<'a> {
     pub log: Option<Vec<CallRec>>,
     /// list queries in evaluation order (when enabled)
     pub qlog: Option<Vec<(String, V)>>,
+    /// evaluate the non-mapped arguments of a map-each call once up front (even for zero
+    /// elements) instead of once per element; values are identical, only the logs differ
+    pub memo: bool,
 }
 
 impl<'a> Env<'a> {
     pub fn new(uni: &'a Uni, ctx: &'a MCtx) -> Self {
-        Env { uni, ctx, lists: None, log: None, qlog: None }
+        Env { uni, ctx, lists: None, log: None, qlog: None, memo: false }
     }
 }
 
@@ -423,6 +426,8 @@ impl<'a> Env<'a> {
             return self.invoke(&f, vals, args);
         }
         // map-each: the function is applied once per element of the first argument
+        let memoised: Option<Vec<MArg>> =
+            if self.memo { Some(args[1..].iter().map(|a| self.arg_val(a)).collect()) } else { None };
         let first = match &args[0] {
             Arg::Lhs(l) => self.lhs_val(l),
             _ => unreachable!(),
@@ -442,8 +447,13 @@ impl<'a> Env<'a> {
         let mut out = Vec::new();
         for e in elems {
             let mut vals: Vec<MArg> = vec![Ok(e)];
-            for a in &args[1..] {
-                vals.push(self.arg_val(a));
+            match &memoised {
+                Some(m) => vals.extend(m.iter().cloned()),
+                None => {
+                    for a in &args[1..] {
+                        vals.push(self.arg_val(a));
+                    }
+                }
             }
             if let Some(v) = self.invoke(&f, vals, args) {
                 out.push(v);
